@@ -554,12 +554,17 @@ func simYield() {
 		// nobody dominates, whoever is running when the count reaches four
 		// times the limit pays.
 		if simsched.spinSites > simSpinLimit && (gp.simSites >= simSpinLimit/4 || simsched.spinSites > 4*simSpinLimit) {
+			// a lone spinner (nine tenths of the instant's scheduling points are
+			// its own) is waiting for time to pass: its sleeps escalate. Several
+			// goroutines sharing a busy instant are doing work (byte-at-a-time
+			// I/O): that costs a microsecond per round and never more.
+			lone := uint64(gp.simSites) >= simsched.spinSites/10*9
 			simsched.spinSites = 0
 			gp.simSites = 0
 			// escalate only while no virtual time has passed since the previous
 			// injected sleep ended (a genuine spin); isolated bursts of work at
 			// one instant just get a 1 microsecond sleep
-			if now <= simsched.spinEnd {
+			if lone && now <= simsched.spinEnd {
 				simsched.spinLevel++
 			} else {
 				simsched.spinLevel = 0
@@ -570,8 +575,8 @@ func simYield() {
 				exit(4)
 			}
 			lv := simsched.spinLevel
-			if lv > 13 {
-				lv = 13 // 1 us << 39: about 6 virtual days per sleep
+			if lv > 8 {
+				lv = 8 // 1 us << 24: about 17 virtual seconds per sleep
 			}
 			d := int64(1000) << (3 * lv)
 			// never sleep past the next timer of the bubble (a deadline, a
